@@ -5,7 +5,8 @@
 // together.  Here every event whose signature was never seen becomes a node (its pins + its stream); a node is
 // expanded by steering each later cell of its own path: the cell is set to the sorted candidate values (all harvested
 // thresholds +-1e-9 and both tails) by bisection - if both ends of an interval give the same signature the interval is
-// not subdivided (branch ladders are step functions of their deviate).  New signatures become new nodes.
+// not subdivided (branch ladders are step functions of their deviate); between neighbouring candidates with different
+// signatures the boundary is located numerically, which also finds outcomes hidden between them.  New signatures become new nodes.
 //
 // This is workload generation only: every event produced here is judged by the caller's monitors like any other.
 #ifndef VERIF_STEER_H
@@ -65,18 +66,18 @@ namespace verif {
       size_t from = n.pins.empty() ? 0 : n.pins.back().first + 1;
       size_t to = std::min(n.draws, from + max_cells);
       for (size_t k = from; k < to && s.events < max_events; k++) {
-        auto eval = [&](size_t vi) -> uint64_t {
+        auto eval_v = [&](double v) -> uint64_t {
           apply(n);
-          tape.pin(k, vals[vi]);
+          tape.pin(k, v);
           size_t d = 0;
           std::string steer = "deep:";
           for (auto & p : n.pins) steer += fmt(" %zu=%.17g", p.first, p.second);
-          steer += fmt(" %zu=%.17g", k, vals[vi]);
+          steer += fmt(" %zu=%.17g", k, v);
           uint64_t sg = one(steer, d);
           s.events++;
           if (seen.insert(sg).second) {
             Node c = n;
-            c.pins.emplace_back(k, vals[vi]);
+            c.pins.emplace_back(k, v);
             c.draws = d;
             frontier.push_back(c);
             s.nodes_found++;
@@ -89,18 +90,27 @@ namespace verif {
         std::vector<char> have(vals.size(), 0);
         auto get = [&](size_t i) {
           if (!have[i]) {
-            sig[i] = eval(i);
+            sig[i] = eval_v(vals[i]);
             have[i] = 1;
           }
           return sig[i];
+        };
+        // numeric refinement between two neighbouring candidates that give different signatures: finds branch boundaries that are
+        // not literal thresholds (conversion-coefficient sums, computed probabilities) and the outcomes hidden between them
+        std::function<void(double, uint64_t, double, uint64_t, int)> refine = [&](double a, uint64_t sa, double b, uint64_t sb, int depth) {
+          if (sa == sb || depth <= 0 || b - a < 4e-10 || s.events >= max_events) return;
+          double m = 0.5 * (a + b);
+          uint64_t sm = eval_v(m);
+          refine(a, sa, m, sm, depth - 1);
+          refine(m, sm, b, sb, depth - 1);
         };
         stack.emplace_back(0, vals.size() - 1);
         while (!stack.empty() && s.events < max_events) {
           auto iv = stack.back();
           stack.pop_back();
           if (iv.second <= iv.first + 1) {
-            get(iv.first);
-            get(iv.second);
+            uint64_t sa = get(iv.first), sb = get(iv.second);
+            if (iv.second != iv.first && vals[iv.second] - vals[iv.first] > 2.5e-9) refine(vals[iv.first], sa, vals[iv.second], sb, 34);
             continue;
           }
           if (get(iv.first) == get(iv.second)) continue;
